@@ -16,6 +16,7 @@ import (
 	"go/token"
 	"os"
 	"path/filepath"
+	"regexp"
 	"strings"
 
 	"github.com/Dash-Industry-Forum/livesim2/cmd/livesim2/app"
@@ -51,12 +52,20 @@ func run(c *lib.Ctx) error {
 	}
 	writeCases(c, terms)
 	c.Res.Evaluations = len(terms)
-	c.Res.Notes = append(c.Res.Notes, fmt.Sprintf("cases: %d", len(terms)))
+	// distinct cases: the case terms without their running id (input and observed outcome)
+	seen := map[string]bool{}
+	for _, t := range terms {
+		seen[caseIDRe.ReplaceAllString(t, "$1 ")] = true
+	}
+	c.Res.DistinctNontrivial = len(seen)
+	c.Res.Notes = append(c.Res.Notes, fmt.Sprintf("cases: %d (%d distinct)", len(terms), len(seen)))
 	return nil
 }
 
 // writeCases shards the cases by kind (the hand-over runs over the real 64 KiB buffer are the
 // slowest to evaluate and get a file of their own).
+var caseIDRe = regexp.MustCompile(`^(\w+) \d+ `)
+
 func writeCases(c *lib.Ctx, terms []string) {
 	rounding, how := detectRounding()
 	c.Res.Notes = append(c.Res.Notes, "calcSegmentAvailabilityTime rounding read from the source: "+rounding+" ("+how+")")
